@@ -8,6 +8,8 @@
                  returned value is compared with TLC's expectation (P: FinalValue)
   3. ComposeTrace(TLC): the recorded call logs are judged line by line (P: Order, Arg, Count, Result)  (impl -> spec)
   4. the same with seeded random arguments.
+Function families: "arith" (int), "seq" ([]int) and four boxed families over Go `any` / `error` in which error values, nil,
+typed nil pointers, NaN and zero values are ordinary stage arguments / results (anyhist, errhist, anyspecial, errspecial).
 This property is close to "one pure function per arity": TLC contributes the exhaustive enumeration of the small
 domain, the sensitivity check of the families and the line-by-line judgement of the call logs."""
 import json, os
@@ -22,6 +24,7 @@ INVARIANT Refines
 INVARIANT LogPromised
 INVARIANT FamiliesSensitive
 INVARIANT InRange
+INVARIANT ErrTyped
 INVARIANT Emit
 CHECK_DEADLOCK FALSE
 """
@@ -59,6 +62,13 @@ def check(run, replay=None):
         # ---- 2. + 3. every case on the real code
         traces = execute(binp, d, "gen", cases=cases)
         judge(run, traces, d, "gen")
+        # vacuity guard for the boxed families: every kind of special value (nil, typed nil, NaN, "", zero values, errors by
+        # pointer / by value) was an INTERMEDIATE result of some real pipeline, and error values travelled through every arity
+        kinds = {c["res"][0] for t in traces if t["fam"] == "anyspecial" for c in t["calls"] if c["i"] < t["n"]}
+        if not kinds >= {0, 1, 2, 3, 4, 5, 6, 7, 8}:
+            raise Infra("boxed families: special kinds %s never were an intermediate result" % sorted({0, 1, 2, 3, 4, 5, 6, 7, 8} - kinds))
+        run.notes["special_kinds_as_intermediate_result"] = sorted(kinds)
+        run.notes["arities_with_error_values_flowing"] = sorted({t["n"] for t in traces if t["fam"] in ("anyhist", "errhist") and len(t["calls"]) == t["n"]})
         run.sample({"case": cases[len(cases) // 2], "recorded": brief(traces[0])})
         # ---- 4. random arguments
         traces = execute(binp, d, "rnd", seed=run.seed, n=40 if thorough else 4)
